@@ -12,7 +12,7 @@ import (
 //zzv:bound H1 = real UpdateFanConfigFromHwMonControllers on 3 chips in any of the 6 enumeration orders, each chip with 0..3 fans on arbitrary ascending channels (1..64) numbered by position, a platform pattern matching exactly one chip, selector = index (1..4) or rpmChannel (1..64), pwmChannel explicit (1..64) or defaulted: on success the entry is bound to the selected device of the named chip (sysfs path, rpm channel, pwm channel = explicit or the device's own)
 //zzv:bound H2 = same: the three derived paths are <chip path>/fan<rpm>_input, /pwm<pwm> and /pwm<pwm>_enable (template strings with symbolic channel numbers)
 //zzv:bound H3 = same: when the named chip has no such device the call returns an error, never panics and leaves the entry unbound (never another chip's device)
-//zzv:outside libsensors discovery (GetChips/GetFans/GetTempSensors run through cgo); patterns matching several chips; the meaning of regular expressions beyond the concrete patterns used
+//zzv:outside libsensors itself (GetChips and the feature lists come through cgo; GetFans / GetTempSensors run on the pure-Go stand-in chip, bounds D and DS); patterns matching several chips; the meaning of regular expressions beyond the concrete patterns used
 
 type zzChip struct {
 	platform string
@@ -165,4 +165,42 @@ func ZZ_C17_D_DiscoveryThenBinding() {
 	zzv.Assert(cfg.HwMon.PwmChannel == wantPwm, "D.pwm_channel_defaults_to_rpm_channel")
 	zzv.Assert(cfg.HwMon.PwmPath == fmt.Sprintf("%s/pwm%d", chip.Path, wantPwm), "D.pwm_path")
 	zzv.Assert(cfg.HwMon.RpmInputPath == fmt.Sprintf("%s/fan%d_input", chip.Path, wantRpm), "D.rpm_input_path")
+}
+
+//zzv:bound DS = sensor discovery: real GetTempSensors on a chip whose temperature features temp1..temp4 are each absent, present with an input, or present without an input (only a max / crit sub-feature), interleaved with a fan feature: the result's keys are exactly 1..n for the n temperature inputs, key k is the k-th temperature input in enumeration order (its Index is k, its Input the path of that very tempN_input), so that `index: k` of a sensor entry means the k-th temperature input of the named chip and an index above n has no entry
+
+func ZZ_C17_DS_SensorDiscovery() {
+	chip := gosensors.Chip{Prefix: "nct6798", Path: "/sys/class/hwmon/hwmon2"}
+	var inputs []int
+	for ch := 1; ch <= 4; ch++ {
+		switch zzv.Choice(fmt.Sprintf("temp%d", ch), 3) {
+		case 1:
+			inputs = append(inputs, ch)
+			chip.Features = append(chip.Features, gosensors.Feature{Name: fmt.Sprintf("temp%d", ch), Type: gosensors.FeatureTypeTemp,
+				Subs: []gosensors.SubFeature{
+					{Name: fmt.Sprintf("temp%d_max", ch), Type: gosensors.SubFeatureTypeTempMax, Value: 90},
+					{Name: fmt.Sprintf("temp%d_input", ch), Type: gosensors.SubFeatureTypeTempInput, Value: 40}}})
+		case 2:
+			chip.Features = append(chip.Features, gosensors.Feature{Name: fmt.Sprintf("temp%d", ch), Type: gosensors.FeatureTypeTemp,
+				Subs: []gosensors.SubFeature{{Name: fmt.Sprintf("temp%d_max", ch), Type: gosensors.SubFeatureTypeTempMax, Value: 90}}})
+		}
+		if ch == 2 {
+			chip.Features = append(chip.Features, gosensors.Feature{Name: "fan1", Type: gosensors.FeatureTypeFan,
+				Subs: []gosensors.SubFeature{{Name: "fan1_input", Type: gosensors.SubFeatureTypeFanInput, Value: 1000}}})
+		}
+	}
+	found := GetTempSensors(chip)
+	zzv.Record("found", len(found))
+	zzv.Assert(len(found) == len(inputs), "DS.one_sensor_per_temperature_input")
+	for k, ch := range inputs {
+		s, ok := found[k+1]
+		zzv.Assert(ok, "DS.keys_count_temperature_inputs")
+		if !ok {
+			return
+		}
+		zzv.Assert(s.Index == k+1, "DS.index_is_the_key")
+		zzv.Assert(s.Input == fmt.Sprintf("%s/temp%d_input", chip.Path, ch), "DS.key_k_is_the_kth_temperature_input")
+	}
+	_, extra := found[len(inputs)+1]
+	zzv.Assert(!extra, "DS.no_entry_above_the_number_of_inputs")
 }
